@@ -56,14 +56,21 @@ structure TService where
 structure TTopic where
   kind : S
   name : S
-  msgs : List S
+  msgs : List (S × List TProp)
+
+structure TEntity where
+  name : S
+  keys : List TProp
+  data : List TProp
+  statuses : List S
+  events : List (S × List TProp)
 
 structure TSpec where
   pkg : S
   schemas : List TSchema
   services : List TService
   topics : List TTopic
-  nEntities : Nat
+  entities : List TEntity
 
 /-! ## token parser (prefix notation with counts) -/
 
@@ -110,9 +117,9 @@ def hexTok : P Str := do
   | some b => pure b
   | none => failure
 
-def pMsgs : P (List S) := do
+def pMsgs : P (List (S × List TProp)) := do
   let n ← num
-  rep n (do let name ← tok; let _ ← pProps; pure name)
+  rep n (do let name ← tok; let ps ← pProps; pure (name, ps))
 
 def pSpec : P TSpec := do
   -- "<pkg>" or "<pkg>+<n>" (n schemas live in a second source file: irrelevant for the model)
@@ -146,13 +153,13 @@ def pSpec : P TSpec := do
     let msgs ← pMsgs
     pure { kind, name, msgs : TTopic })
   let nE ← num
-  let _ ← rep nE (do
-    let _ ← tok
-    let _ ← pProps; let _ ← pProps
-    let n ← num; let _ ← rep n tok
-    let _ ← pMsgs
-    pure ())
-  if (← get).isEmpty then pure { pkg, schemas, services, topics, nEntities := nE } else failure
+  let entities ← rep nE (do
+    let name ← tok
+    let keys ← pProps; let data ← pProps
+    let n ← num; let statuses ← rep n tok
+    let events ← pMsgs
+    pure { name, keys, data, statuses, events : TEntity })
+  if (← get).isEmpty then pure { pkg, schemas, services, topics, entities } else failure
 
 /-! ## graph of named schemas (inline schemas hoisted as `<Parent>_<Camel(field)>`) -/
 
@@ -227,28 +234,53 @@ partial def fieldOf (nodes : List NamedNode) (pfx parent field : S) : TType → 
   | .ione _ => .oneof (indexOf nodes (pfx ++ parent ++ "_" ++ camel field))
   | .ienum _ => .enum (indexOf nodes (pfx ++ parent ++ "_" ++ camel field))
 
-/-- options of the enum a type refers to, as the compiler declares them (implicit zero value first) -/
-def enumOptions (schemas : List TSchema) : TType → List S
-  | .ienum opts => "UNSPECIFIED" :: opts
-  | .ref "e" n => match schemas.find? (·.name == n) with
-    | some sc => "UNSPECIFIED" :: sc.opts
-    | none => []
-  | _ => []
+def enumPrefix (name : S) : Str := toScreamingSnake (strOf name) ++ b!"_"
 
-def propOf (schemas : List TSchema) (nodes : List NamedNode) (pfx parent : S) (p : TProp) : Prop' :=
+/-- (prefix, declared options) of the enum a property's type refers to: a declared enum `N` has
+prefix `SCREAMING_SNAKE(N)_`, an inline enum of field `f` is hoisted as `Camel(f)` -/
+def enumInfo (schemas : List TSchema) (field : S) : TType → Option (Str × List Str)
+  | .ienum opts => some (enumPrefix (camel field), opts.map strOf)
+  | .ref "e" n => (schemas.find? (·.name == n)).map fun sc => (enumPrefix n, sc.opts.map strOf)
+  | _ => none
+
+/-- flags d / P / D: default filter = first declared option / the same with the enum's prefix /
+a name that is no option -/
+def defaultsOf (fl : S) (pfx : Str) (opts : List Str) : Option (List Str) :=
+  if hasFlag fl 'D' then some [b!"BOGUS"]
+  else if hasFlag fl 'P' then some ((opts.take 1).map (pfx ++ ·))
+  else if hasFlag fl 'd' then some (opts.take 1)
+  else none
+
+/-- producer's and consumer's verdict on the default filters of one property
+(`J5V.Pipe.enumDefaultsChain`); `some true` when there is nothing to check -/
+def defaultsVerdict (schemas : List TSchema) (p : TProp) : Option Bool :=
+  let (name, fl, t) := p
+  match enumInfo schemas name t with
+  | some (pfx, opts) =>
+    match defaultsOf fl pfx opts with
+    | some ds => enumDefaultsChain pfx opts ds
+    | none => some true
+  | none => some true
+
+/-- every property of the package, inline schemas included -/
+partial def allPropsBelow (ps : List TProp) : List TProp :=
+  ps.foldl (fun acc p => acc ++ [p] ++ below p.2.2) []
+where
+  below : TType → List TProp
+    | .arr e => below e
+    | .map e => below e
+    | .iobj ps => allPropsBelow ps
+    | .ione ps => allPropsBelow ps
+    | _ => []
+
+def propOf (nodes : List NamedNode) (pfx parent : S) (p : TProp) : Prop' :=
   let (name, fl, t) := p
   let rules : LRules := { filter := hasFlag fl 'f', sort := hasFlag fl 's', search := hasFlag fl 'q' }
-  -- flags d / D: default filter = first declared option / a name that is no option
-  let defaults : List S :=
-    if hasFlag fl 'D' then ["BOGUS"]
-    else if hasFlag fl 'd' then ((enumOptions schemas t).drop 1).take 1 else []
-  let bad := lkindOf t == .enum && rules.filter
-    && !defaultFiltersOk ((enumOptions schemas t).map strOf) (defaults.map strOf)
   { name := strOf name, field := fieldOf nodes pfx parent name t,
-    tag := (listEffect (lkindOf t) rules).toTag + (if bad then 8 else 0) }
+    tag := (listEffect (lkindOf t) rules).toTag }
 
-def graphOf (schemas : List TSchema) (nodes : List NamedNode) : Graph :=
-  nodes.map fun n => { kind := n.kind, props := n.props.map (propOf schemas nodes n.pfx n.parent) }
+def graphOf (nodes : List NamedNode) : Graph :=
+  nodes.map fun n => { kind := n.kind, props := n.props.map (propOf nodes n.pfx n.parent) }
 
 /-! ## summary -/
 
@@ -305,23 +337,22 @@ def declOf (sv : TService) : Option ServiceDecl := do
 
 def sortStrings (xs : List S) : List S := (xs.toArray.qsort (· < ·)).toList
 
-/-- does the list walk of a method reach a filterable enum with a default filter that is no option -/
-def listHitsBadDefault (nodes : List NamedNode) (g : Graph) (m : TMethod) : Bool :=
-  m.list && match m.resp with
-  | (_, _, t) :: _ =>
-    match leafType t with
-    | .ref _ item =>
-      match walk g (indexOf nodes item) with
-      | some (.ok vs) => vs.any (fun v => tagBadDefault v.tag)
-      | _ => false
-    | _ => false
-  | [] => false
+/-- every property anywhere in the package (schemas, requests, responses, topic messages, entities) -/
+def specProps (sp : TSpec) : List TProp :=
+  allPropsBelow (sp.schemas.foldl (fun acc sc => acc ++ sc.props) []
+    ++ sp.services.foldl (fun acc sv => sv.methods.foldl (fun acc m => acc ++ m.req ++ m.resp) acc) []
+    ++ sp.topics.foldl (fun acc t => t.msgs.foldl (fun acc m => acc ++ m.2) acc) []
+    ++ sp.entities.foldl (fun acc e => e.events.foldl (fun acc m => acc ++ m.2) (acc ++ e.keys ++ e.data)) [])
 
 def chainLine (sp : TSpec) : S :=
-  if sp.nEntities > 0 then "skip" else
+  -- enum default filters: the compiler refuses the package when one names no option (`fix:` b6c593a);
+  -- "accepted by the compiler, refused by the client" cannot happen (`C16_list_defaults_chain`)
+  let verdicts := (specProps sp).map (defaultsVerdict sp.schemas)
+  if verdicts.any (·.isNone) then "compile-err" else
+  if verdicts.any (· == some false) then "fail client" else
+  if !sp.entities.isEmpty then "skip" else
   let nodes := allNodes sp
-  let g := graphOf sp.schemas nodes
-  if sp.services.any (fun sv => sv.methods.any (listHitsBadDefault nodes g)) then "fail client" else
+  let g := graphOf nodes
   let pkgSub := strOf (sp.pkg ++ ".service")
   let svcs := sp.services.map fun sv =>
     match declOf sv with
@@ -334,8 +365,8 @@ def chainLine (sp : TSpec) : S :=
       | .err e => " [model-err:" ++ e ++ "]"
       | .panic w => " [model-panic:" ++ w ++ "]"
   let roots : List Field := sp.services.foldl (fun acc sv => sv.methods.foldl (fun acc m =>
-    acc ++ (m.req.map fun p => (propOf sp.schemas nodes "service." (m.name ++ "Request") p).field)
-        ++ (if m.hasResp then m.resp.map fun p => (propOf sp.schemas nodes "service." (m.name ++ "Response") p).field else [])) acc) []
+    acc ++ (m.req.map fun p => (propOf nodes "service." (m.name ++ "Request") p).field)
+        ++ (if m.hasResp then m.resp.map fun p => (propOf nodes "service." (m.name ++ "Response") p).field else [])) acc) []
   let keys := match collect g roots with
     | some is => csv (sortStrings (is.filterMap fun i => (nodes[i]?).map (·.key))) "-"
     | none => "collect-fuel"
@@ -343,7 +374,7 @@ def chainLine (sp : TSpec) : S :=
   let tname (n : S) : S := ofStr (topicName (strOf n))
   let mname (n : S) : S := ofStr (messageName (strOf n))
   let topics : List S := sp.topics.foldl (fun acc t =>
-    if t.kind == "P" then acc ++ [tname t.name ++ "=" ++ "+".intercalate (t.msgs.map mname)]
+    if t.kind == "P" then acc ++ [tname t.name ++ "=" ++ "+".intercalate (t.msgs.map (mname ·.1))]
     else if t.kind == "Q" then
       acc ++ [tname (t.name ++ "Request") ++ "=" ++ mname (t.name ++ "Request"),
               tname (t.name ++ "Reply") ++ "=" ++ mname (t.name ++ "Reply")]
